@@ -77,6 +77,35 @@ theorem caps_segLoop {cfg : Cfg} (mss cap port : Nat) (fuel : Nat) (t : Tcb) (ac
     · rename_i t' sg hs
       exact ih _ _ (caps_segStep h hs)
 
+theorem segStep_payload {t t' : Tcb} {mss cap port : Nat} {sg : Seg}
+    (hs : t.segStep mss cap port = some (t', sg)) : sg.payload.length ≤ mss := by
+  unfold segStep at hs
+  dsimp only at hs
+  split at hs
+  · cases hs
+    simp only [List.length_take]
+    omega
+  · split at hs
+    · cases hs; simp
+    · cases hs
+
+theorem segLoop_payload (mss cap port : Nat) (fuel : Nat) (t : Tcb) (acc : List Seg)
+    (hacc : ∀ sg ∈ acc, sg.payload.length ≤ mss) :
+    ∀ sg ∈ (segLoop mss cap port fuel t acc).2, sg.payload.length ≤ mss := by
+  induction fuel generalizing t acc with
+  | zero => simpa [segLoop] using hacc
+  | succ n ih =>
+    unfold segLoop
+    split
+    · exact hacc
+    · rename_i t' sg hs
+      apply ih
+      intro sg' hsg'
+      simp only [List.mem_append, List.mem_singleton] at hsg'
+      rcases hsg' with h | rfl
+      · exact hacc _ h
+      · exact segStep_payload hs
+
 theorem caps_pollSend {cfg : Cfg} {t : Tcb} (buf : List Nat) (h : TcbCaps cfg t) :
     TcbCaps cfg (t.pollSend cfg.sendCap buf).1 := by
   unfold pollSend
